@@ -158,13 +158,19 @@ def scenario_s3(spec, types):
         def body(x=Option("X", 0), _j=j):
             return ("default", _j, x)
         body.__name__ = f"s3_{j}"
-        dss.append(dataset(dispatch="K")(body))
+        # (not cached: an evaluation that overlaps the registrations must not pin the default for the final check)
+        dss.append(dataset.nocache(dispatch="K")(body))
 
     def make(i, ops):
         def program():
             for d, alias, how in ops:
                 ds = dss[d % len(dss)]
                 tag = ("impl", i, alias)
+                if how == "eval":
+                    # an evaluation overlapping the other threads' registrations (its own result may be the default or any
+                    # implementation registered so far)
+                    ds({"K": alias})
+                    continue
                 if how == "register":
                     ds.register(alias, Value(tag))
                 else:
@@ -184,7 +190,8 @@ def scenario_s3(spec, types):
         want = {}
         for i, ops in enumerate(spec["threads"]):
             for d, alias, how in ops:
-                want.setdefault((d % len(dss), alias), []).append(("impl", i, alias))
+                if how != "eval":
+                    want.setdefault((d % len(dss), alias), []).append(("impl", i, alias))
         for (d, alias), tags in want.items():
             ds = dss[d]
             if alias not in ds.overloads.lookup:
@@ -264,7 +271,35 @@ def execute(case):
                 threads.pop(t, None)
 
 
+def _well_formed(case):
+    """Cases cut down by the reducer may no longer be programs; those are not run."""
+    sc, spec = case.get("scenario"), case.get("spec")
+    if sc not in SCENARIOS or not isinstance(spec, dict) or not isinstance(spec.get("threads"), list) or not spec["threads"]:
+        return False
+    if not all(isinstance(t, list) for t in spec["threads"]):
+        return False
+    if sc == "S3":
+        return isinstance(spec.get("datasets"), int) and spec["datasets"] >= 1 and all(
+            isinstance(op, list) and len(op) == 3 and isinstance(op[0], int) and op[2] in ("register", "overload", "eval") for t in spec["threads"] for op in t)
+    if sc == "S4":
+        return all(isinstance(v, int) for t in spec["threads"] for v in t)
+    if not isinstance(spec.get("pool"), list) or not spec["pool"] or not all(
+            isinstance(ov, list) and all(isinstance(p, list) and len(p) == 2 for p in ov) for ov in spec["pool"]):
+        return False
+    for t in spec["threads"]:
+        for op in t:
+            if not (isinstance(op, list) and op and ((op[0] in ("exit", "touch") and len(op) == 1) or
+                                                     (op[0] in ("enter", "run", "inherit") and len(op) == 2 and isinstance(op[1], int)))):
+                return False
+            if op[0] == "inherit" and not 0 <= op[1] < len(spec["threads"]):
+                return False
+    return all(isinstance(s, list) and len(s) == 2 for s in case.get("schedule", []))
+
+
 def check(case, ctx):
+    if not _well_formed(case):
+        ctx.done(case, False, ["malformed (reducer artefact)"])
+        return
     msg, steps, taken = execute(case)
     if msg:
         raise Violation("thread-" + case["scenario"], f"schedule={case['schedule']} spec={case['spec']}: {msg}")
@@ -284,6 +319,7 @@ FAMILY = [
                                             [["inherit", 0], ["run", 0], ["run", 1]]]}},
     {"scenario": "S3", "spec": {"datasets": 1, "threads": [[[0, "a", "register"], [0, "b", "overload"]], [[0, "c", "register"], [0, "d", "register"]]]}},
     {"scenario": "S3", "spec": {"datasets": 2, "threads": [[[0, "a", "overload"]], [[0, "b", "register"]], [[1, "c", "register"], [0, "d", "register"]]]}},
+    {"scenario": "S3", "spec": {"datasets": 1, "threads": [[[0, "a", "eval"], [0, "a", "eval"]], [[0, "a", "register"], [0, "b", "register"]]]}},
     {"scenario": "S4", "spec": {"threads": [[1, 2], [2, 1]]}},
     {"scenario": "S4", "spec": {"threads": [[1], [3], [1]]}},
 ]
@@ -351,8 +387,8 @@ def random_cases(draw):
         spec = {"pool": pool, "threads": threads}
     elif scenario == "S3":
         spec = {"datasets": draw(st.integers(1, 2)),
-                "threads": [[[draw(st.integers(0, 1)), f"a{i}_{j}", draw(st.sampled_from(["register", "overload"]))] for j in range(draw(st.integers(1, 3)))]
-                            for i in range(nthreads)]}
+                "threads": [[[draw(st.integers(0, 1)), f"a{i}_{j}" if draw(st.integers(0, 3)) else "a0_0", draw(st.sampled_from(["register", "overload", "eval"]))]
+                             for j in range(draw(st.integers(1, 3)))] for i in range(nthreads)]}
     else:
         spec = {"threads": [draw(st.lists(st.integers(1, 4), min_size=1, max_size=3)) for _ in range(nthreads)]}
     schedule = draw(st.lists(st.tuples(st.integers(0, 400), st.integers(0, nthreads - 1)).map(list), max_size=6, unique_by=lambda x: x[0]))
